@@ -1181,7 +1181,12 @@ namespace rvutils::pbo
         void open(const std::filesystem::path &path)
         {
             std::fstream file(path, std::ios_base::binary | std::ios_base::in | std::ios_base::out);
-            if (!file.is_open() && !file.good())
+            if (!file.is_open())
+            { // reading does not need write access (read-only archive)
+                file.clear();
+                file.open(path, std::ios_base::binary | std::ios_base::in);
+            }
+            if (!file.is_open() || !file.good())
             {
                 m_good = false;
                 return;
@@ -1202,24 +1207,36 @@ namespace rvutils::pbo
             DBG_POS = file.tellg();
 #endif
 
-
-            // Read in attributes until we hit a "no value"
-            std::optional<attribute_> opt_attribute;
-            while ((opt_attribute = read_attribute(file)).has_value())
+            if (opt_header->name.empty() && opt_header->method == packing_method::version)
             {
-                m_attributes.push_back(*opt_attribute);
-            }
-            attribute_ attribute_empty = {};
-            attribute_empty.block.start = file.tellg();
-            attribute_empty.block.end = attribute_empty.block.start + std::streamoff(1);
-            m_attributes.push_back(attribute_empty);
+                // Read in attributes until we hit a "no value"
+                std::optional<attribute_> opt_attribute;
+                while ((opt_attribute = read_attribute(file)).has_value())
+                {
+                    m_attributes.push_back(*opt_attribute);
+                }
+                attribute_ attribute_empty = {};
+                attribute_empty.block.start = file.tellg();
+                attribute_empty.block.end = attribute_empty.block.start + std::streamoff(1);
+                m_attributes.push_back(attribute_empty);
 #if _DEBUG
-            DBG_POS = file.tellg();
+                DBG_POS = file.tellg();
 #endif
 
-            // Confirm we reached attributes end
-            if (file.get() != '\0')
-            { // we failed :(
+                // Confirm we reached attributes end
+                if (file.get() != '\0')
+                { // we failed :(
+                    m_good = false;
+                    return;
+                }
+            }
+            else if (!opt_header->name.empty())
+            { // An archive without the version header (and thus without properties): the first record is an entry already.
+                m_attributes.push_back({});
+                m_headers.push_back(*opt_header);
+            }
+            else
+            { // neither a version header nor an entry
                 m_good = false;
                 return;
             }
